@@ -38,7 +38,9 @@ def flatten(list_or_tuple):
     """
     Flatten a list or tuple into a 1-dimensional copy of the same type.
     """
-    cast_result_as = type(list_or_tuple)
+    # (A plain tuple or list -- not a subclass such as a named tuple,
+    # whose constructor takes the items one by one.)
+    cast_result_as = tuple if isinstance(list_or_tuple, tuple) else list
     while any((isinstance(e, (list, tuple)) for e in list_or_tuple)):
         unpacked = []
         for element in list_or_tuple:
